@@ -133,9 +133,13 @@ def mc_lease(wd, tier, workers):
 _READS = dict(hcfg={"n": 3, "cap": 100}, rnd_cfgs=[{"n": 3, "cap": 100}, {"n": 5, "cap": 100}], profile="reads")
 PROPS["C11"] = dict(mc={"quick": ["repl-q"], "thorough": ["repl-t"]}, mc_custom=mc_lease, mech=["Client"], min_mech=2, **_READS)
 PROPS["C12"] = dict(mc={"quick": [], "thorough": []}, mc_custom=mc_lease, mech=["Client"], min_mech=2, **_READS)
+_SNAP = {"n": 3, "cap": 100, "snapshot": True, "snap_threshold": 3, "retained": 1}
+PROPS["C33"] = dict(mc={"quick": ["repl-q"], "thorough": ["repl-t"]}, mech=["DeliverSnap", "Restart"], min_mech=1, level="exploration",
+                    hcfg=_SNAP, rnd_cfgs=[_SNAP, dict(_SNAP, retained=2, snap_threshold=4)])
 PROPS["C30"] = dict(mc={"quick": ["repl-q"], "thorough": ["repl-t"]}, mech=["Client"], min_mech=2, level="exploration",
                     hcfg={"n": 3, "cap": 2}, rnd_cfgs=[{"n": 3, "cap": 2}, {"n": 3, "cap": 100, "general_timeout_ms": 50}], profile="reads")
 PROPS["C32"] = dict(mc={"quick": ["repl-q"], "thorough": ["repl-t"]}, mech=["Crash", "DropMsg", "DropVQ"], min_mech=2, level="exploration")
+_WHAT.update({"C33": "log compaction never discards needed entries (purge only of committed, snapshotted entries; lagging peers served by log or snapshot, also after leader restart)"})
 _WHAT.update({"C30": "no accepted request is silently dropped (every request is answered once every deadline has passed and leaders have ticked)",
               "C32": "the cluster recovers once faults stop (bounded fair quiet period after every explored fault history)"})
 _WHAT.update({"C11": "linearizable reads are linearizable", "C12": "lease reads only under a valid, exclusive leader lease"})
@@ -147,7 +151,7 @@ MANIFEST_INFO = {p: dict(technique="TLA+/TLC model checking of DEngine.tla + tra
                          category=PROPS[p].get("level", "model_checking"), text=w + ": " + _TEXT, note=_NOTE,
                          ref="DESIGN.md sections 2-3, 9")
                  for p, w in _WHAT.items()}
-for _p in ("C30", "C32"):
+for _p in ("C30", "C32", "C33"):
     MANIFEST_INFO[_p]["technique"] = ("TLA+ trace judge (DETrace.tla) over executions of real nodes with a deterministic "
                                       "fault-free epilogue; DEngine.tla safety model checked with TLC as the base")
     MANIFEST_INFO[_p]["note"] = _NOTE + "; the liveness part is bounded exploration (epilogue of fixed length), not a TLC liveness proof"
@@ -188,12 +192,13 @@ def uniquify(sched, tag):
     return out
 
 
-def run_harness(wd, schedules, rnd_runs, rnd_depth, seed_, cfg, rnd_cfgs=None, profile="default", witnesses=True):
+def run_harness(wd, schedules, rnd_runs, rnd_depth, seed_, cfg, rnd_cfgs=None, profile="default", witnesses=True,
+                prop=None):
     """Replay TLC schedules and run random schedules; returns trace paths."""
     binp = dv.harness_bin("dv-cluster")
     traces = []
     scratch = os.path.join(wd, "snap")
-    wits = load_witnesses() if witnesses else []
+    wits = load_witnesses(prop) if witnesses else []
     if schedules or wits:
         sp = os.path.join(wd, "schedules.ndjson")
         with open(sp, "w") as f:
@@ -216,7 +221,7 @@ def run_harness(wd, schedules, rnd_runs, rnd_depth, seed_, cfg, rnd_cfgs=None, p
     return traces
 
 
-def load_witnesses():
+def load_witnesses(prop=None):
     """Hand-written / TLC-counterexample schedules kept as regression witnesses (known findings and
     negative tests); replayed by every cluster check."""
     d = os.path.join(dv.ROOT, "witness", "cluster")
@@ -225,7 +230,9 @@ def load_witnesses():
         for fn in sorted(os.listdir(d)):
             if fn.endswith(".json"):
                 with open(os.path.join(d, fn)) as f:
-                    out.append(json.load(f))
+                    w = json.load(f)
+                if prop is None or not w.get("props") or prop in w["props"]:
+                    out.append(w)
     return out
 
 
@@ -278,7 +285,7 @@ def check(prop, tier):
     # 3. real code
     hcfg = spec.get("hcfg") or {"n": 3, "cap": 2}
     traces = run_harness(wd, scheds, T["rnd_runs"], T["rnd_depth"], dv.seed(), hcfg,
-                         rnd_cfgs=spec.get("rnd_cfgs"), profile=spec.get("profile", "default"))
+                         rnd_cfgs=spec.get("rnd_cfgs"), profile=spec.get("profile", "default"), prop=prop)
 
     # 4. judge
     viol, div = [], []
